@@ -32,6 +32,10 @@ def run(ctx, res):
     stride = 6 if ctx.tier == "quick" else 1
     findgen.gen_find(ctx, res, fams, [], "net", False, [97, 98, 99], 3, stride, ctx.seed % stride, "F-rewrite-shapes")
     findgen.gen_find(ctx, res, ["atomseq"], [], "net", False, [97, 98, 10], 4, 2 if ctx.tier == "quick" else 1, ctx.seed % 2 if ctx.tier == "quick" else 0, "F-atomic-lazy-len4")
+    # loops in front of the end anchors, with and without Multiline (what may follow a loop decides whether it is made atomic)
+    for o in ([], ["m"]):
+        findgen.gen_find(ctx, res, ["nlend"], o, "net", False, [97, 98, 10], 3 if ctx.tier == "quick" else 4, 2 if ctx.tier == "quick" else 1,
+                         ctx.seed % 2 if ctx.tier == "quick" else 0, "F-end-anchors" + ("-m" if o else ""))
     res.assumptions += ["TLC and the CommunityModules Json/IOUtils", "the rewrite gates (syntax/verif_on.go) switch off exactly the rewrites C05 names; reductions that are part of parsing (loop coalescing, quantifier multiplication) stay on"]
 
 
